@@ -33,13 +33,15 @@ package scan
 
 import (
 	"fmt"
-	"time"
 	"math"
 	"math/big"
 	"math/bits"
+	"reflect"
 	"sort"
 	"strings"
 	"syscall"
+	"time"
+	"unsafe"
 
 	"verif/vs"
 	"verif/vs/drv"
@@ -142,26 +144,64 @@ type c04state struct {
 var c04uniq uint64
 
 func c04stateOf(it *rangeIterator) c04state {
+	// The iterator's private fields are read by NAME through reflection, whatever integer
+	// representation they have (*big.Int, big.Int, uintN, intN): a refactoring of the representation
+	// must not break the harness. A field that is missing or not an integer makes the state
+	// "unique" (never merged with another), which only costs time.
 	var st c04state
-	get := func(b *big.Int, bit uint32) uint64 {
-		if b == nil || !b.IsUint64() {
+	v := reflect.ValueOf(it).Elem()
+	ptrOf := map[string]uintptr{}
+	get := func(name string, bit uint32) uint64 {
+		f := v.FieldByName(name)
+		bad := func() uint64 {
 			st.Flags |= bit
 			c04uniq++
 			st.Uniq = c04uniq
 			return 0
 		}
-		return b.Uint64()
+		if !f.IsValid() {
+			return bad()
+		}
+		f = reflect.NewAt(f.Type(), unsafe.Pointer(f.UnsafeAddr())).Elem()
+		switch x := f.Interface().(type) {
+		case *big.Int:
+			if x == nil || !x.IsUint64() {
+				return bad()
+			}
+			ptrOf[name] = reflect.ValueOf(x).Pointer()
+			return x.Uint64()
+		case big.Int:
+			if !x.IsUint64() {
+				return bad()
+			}
+			return x.Uint64()
+		}
+		switch f.Kind() {
+		case reflect.Uint, reflect.Uint8, reflect.Uint16, reflect.Uint32, reflect.Uint64, reflect.Uintptr:
+			return f.Uint()
+		case reflect.Int, reflect.Int8, reflect.Int16, reflect.Int32, reflect.Int64:
+			if f.Int() < 0 {
+				return bad()
+			}
+			return uint64(f.Int())
+		}
+		return bad()
 	}
-	st.P, st.G, st.I, st.S, st.L = get(it.P, 1), get(it.G, 2), get(it.I, 4), get(it.startI, 8), get(it.rangeLimit, 16)
-	if it.stop {
-		st.Flags |= 32
+	st.P, st.G, st.I, st.S, st.L = get("P", 1), get("G", 2), get("I", 4), get("startI", 8), get("rangeLimit", 16)
+	if f := v.FieldByName("stop"); f.IsValid() && f.Kind() == reflect.Bool {
+		if f.Bool() {
+			st.Flags |= 32
+		}
+	} else {
+		c04uniq++
+		st.Uniq = c04uniq
 	}
 	// aliasing between the big.Int fields is part of the state (a shared pointer changes the future)
-	ptrs := []*big.Int{it.P, it.G, it.I, it.startI, it.rangeLimit}
+	names := []string{"P", "G", "I", "startI", "rangeLimit"}
 	bit := uint32(64)
-	for i := 0; i < len(ptrs); i++ {
-		for j := i + 1; j < len(ptrs); j++ {
-			if ptrs[i] == ptrs[j] {
+	for i := 0; i < len(names); i++ {
+		for j := i + 1; j < len(names); j++ {
+			if a, ok := ptrOf[names[i]]; ok && a == ptrOf[names[j]] {
 				st.Flags |= bit
 			}
 			bit <<= 1
@@ -804,7 +844,14 @@ func c04partD(c *drv.Ctx, rows []c04row, u *c04unit, fail func(byte, int, string
 		return
 	}
 	st := c04stateOf(it)
-	if st.Flags&31 != 0 || st.P != r.P || st.G == 0 || st.G >= st.P || st.I == 0 || st.I >= st.P {
+	if st.Flags&15 != 0 {
+		// the fields the reference walk starts from are not readable by name any more (refactored
+		// representation): this section cannot judge; (a)-(c) do not depend on them
+		c.Note("section (d) skipped: iterator fields P/G/I/startI not readable by name")
+		c.Outcome("d:skipped")
+		return
+	}
+	if st.P != r.P || st.G == 0 || st.G >= st.P || st.I == 0 || st.I >= st.P {
 		fail('d', u.row, key, fmt.Sprintf("n=%d draws=(%d,%d): constructed state P=%d G'=%d I=%d is not a walk in (Z/%d)*", n, u.r1, u.r2, st.P, st.G, st.I, r.P), rep)
 		return
 	}
